@@ -47,6 +47,11 @@ structure SrvSt where
   fl : FlSt := {}
   cl : Cl.State := {}
   rc : RcSt := {}
+  /-- C06: operations of the message just processed on a stream that stayed open, and the ids it answered -/
+  lastOps : Option (Nat × List Nat × List Nat) := none
+  /-- C09: sessions whose RPC has ended; a session that has just connected -/
+  ended : List Nat := []
+  justConnected : Option Nat := none
   deriving Inhabited
 
 def codeNum : Code → Nat
@@ -190,6 +195,19 @@ def handleSrvMsg (st : SrvSt) (c : Nat) (m : Msg) (ops : List Op) (resps : List 
   let fibSession := (isess.map (fun (s : ObsSess) => s.params.fibAck)).getD false
   -- C06 accounting on the implementation's stream
   let st := c06Account st c (ops.map (·.id)) resps fibSession
+  -- C06: what has to be answered by the time the server is quiet again (checked at the snapshot)
+  let msgResults : List (Nat × AftStatus) := resps.flatMap (fun r => match r with | .results l => l | _ => [])
+  let isOps := match m with | .ops _ => true | _ => false
+  let st := if isOps && code = "open" then { st with lastOps := some (c, ops.map (·.id), msgResults.map (·.1)) } else st
+  -- C06 monitor: with FIB acknowledgement negotiated every RIB_PROGRAMMED of this session's own
+  -- operations comes with its FIB_PROGRAMMED
+  let st := if fibSession then
+      match msgResults.find? (fun x => x.2 == AftStatus.rib && ((st.sent.get? c).getD []).contains x.1 &&
+          !msgResults.any (fun y => y.1 == x.1 && y.2 == AftStatus.fib)) with
+      | some x => st.monfail "c06" s!"fib-missing: operation {x.1} on stream {c}, which negotiated FIB acknowledgement, got RIB_PROGRAMMED without FIB_PROGRAMMED"
+      | none => st
+    else st
+  let st := if code != "open" then { st with ended := c :: st.ended } else st
   -- C01/C02/C03 monitors need the acknowledgement fold
   let allResults : List (Nat × AftStatus) := resps.flatMap (fun r => match r with | .results l => l | _ => [])
   let acked := allResults.filter (fun x => x.2 == AftStatus.rib)
@@ -265,6 +283,15 @@ def handleSrvMsg (st : SrvSt) (c : Nat) (m : Msg) (ops : List Op) (resps : List 
   | some (srv', out) =>
     let st := { st with srv := srv', rs := { st.rs with model := srv'.rib, lastHooks := out.ribOuts.flatMap (fun (o : Rib.Out) => o.hooks) } }
     let (mc, mr) := termTok out.term
+    -- C09 monitor: a protocol violation ends the RPC with the status the specification assigns
+    -- (the table is C09.c09_codes; operations and well-formed announcements are not judged here)
+    let violation := match m with
+      | .multi | .empty => true
+      | .params _ _ _ => out.term.isSome
+      | .elec _ => out.term.isSome
+      | .ops _ => false
+    let st := if violation && (mc ≠ code || mr ≠ reason)
+      then st.monfail "c09" s!"session {c}: the specification assigns status code {mc} reason {mr} to this violation, the server answered code {code} reason {reason}" else st
     if out.resps ≠ resps then
       st.diff "msg.resps" s!"session={c} model={out.resps.map showResp} impl={resps.map showResp}"
     else if mc ≠ code then st.diff "msg.term.code" s!"session={c} model={mc} impl={code}"
@@ -272,7 +299,7 @@ def handleSrvMsg (st : SrvSt) (c : Nat) (m : Msg) (ops : List Op) (resps : List 
     else st
 
 def handleSrvClose (st : SrvSt) (c : Nat) (resps : List Resp) (code : String) : SrvSt :=
-  let st := { st with prevEnts := st.rs.implEnts, prevPend := st.rs.implPend, expectUnchanged := some "c10" }
+  let st := { st with prevEnts := st.rs.implEnts, prevPend := st.rs.implPend, expectUnchanged := some "c10", ended := c :: st.ended }
   let st := if resps ≠ [] then st.monfail "c10" "responses were sent while the client was going away" else st
   if st.rs.diverged then st else
   let st := { st with srv := st.srv.close c }
@@ -403,7 +430,26 @@ def afterObs (st : SrvSt) (elec : Option U128) (master : Option Nat) (sess : Lis
     | some m, some a => if m = a then st else st.monfail "c05" s!"primary is session {m} but the last announcer of the maximum is session {a}"
     | none, none => st
     | _, _ => st.monfail "c05" "primary / announcer mismatch"
-  let st := { st with implElec := elec, implMaster := master, implSess := sess, expectUnchanged := none, flushedNIs := none }
+  -- C06 monitor: on a stream that stayed open every operation of the message is answered with a
+  -- verdict or is held now
+  let st := match st.lastOps with
+    | some (c, ids, answered) =>
+      match ids.find? (fun id => !answered.contains id && !st.rs.implPend.contains id) with
+      | some id => st.monfail "c06" s!"unanswered: operation {id} sent on stream {c} received no result and is not held"
+      | none => st
+    | none => st
+  -- C09 monitors: the footprint of a session whose RPC ended is gone; a session that has just
+  -- connected has negotiated nothing yet
+  let st := match sess.find? (fun (o : ObsSess) => st.ended.contains o.c) with
+    | some o => st.monfail "c09" s!"session {o.c} is still known to the server after its RPC ended"
+    | none => st
+  let st := match st.justConnected with
+    | some n =>
+      match sess.find? (fun (o : ObsSess) => o.c == n) with
+      | some o => if o.setParams || o.last.isSome then st.monfail "c09" s!"session {n} has just connected but already has negotiated parameters or an election id" else st
+      | none => st
+    | none => st
+  let st := { st with implElec := elec, implMaster := master, implSess := sess, expectUnchanged := none, flushedNIs := none, lastOps := none, justConnected := none }
   if st.rs.diverged then st else
   let st := if st.srv.curElec = elec then st
     else st.diff "elec" s!"model={showElec st.srv.curElec} impl={showElec elec}"
@@ -465,7 +511,7 @@ def srvLine (st : SrvSt) (ts : List Tok) : SrvSt :=
       let st := bump st
       match args with
       | [n] => match natOf n with
-        | some n => { st with srv := st.srv.connect n, prevEnts := st.rs.implEnts, prevPend := st.rs.implPend }.covr "connect"
+        | some n => { st with srv := st.srv.connect n, prevEnts := st.rs.implEnts, prevPend := st.rs.implPend, justConnected := some n }.covr "connect"
         | none => bad st
       | _ => bad st
     else if c = "srv.msg" then
